@@ -293,56 +293,60 @@ def validator_orders(ctx, conf):
 def cross_thread_reuse(ctx):
     """the earlier, partially consumed generator was driven by ANOTHER thread that is still alive; the tokenizer is then used
     from this thread.  A watchdog thread runs the second use so that a hang is a verdict, not a stuck check."""
-    import threading
-
     rng = ctx.rng("threads")
     for i in range(12):
         params = G.param_tuples(3)[rng.randrange(56)]
         v1 = G.structured_random(rng, params, 12) + (1,) * params[1]
         v2 = G.structured_random(rng, params, 12)
         kind = rng.choice(("tuple", "char", "bytes"))
-        frames1, validator = tok.FRAME_KINDS[kind](v1)
-        frames2, _ = tok.FRAME_KINDS[kind](v2)
-        fresh = tok.spans(tok.deliver(tok.make_tokenizer(validator, params), tok.CountingSource(frames2), "list"))
-        tk = tok.make_tokenizer(validator, params)
-        started, release = threading.Event(), threading.Event()
+        cross_thread_case(ctx, v1, v2, params, kind, ("list", "generator", "callback")[i % 3])
 
-        def earlier():
-            g = tk.tokenize(tok.CountingSource(frames1), generator=True)
-            try:
-                next(g)
-            except StopIteration:
-                pass
-            started.set()
-            release.wait(20)  # stays alive, generator suspended
 
-        t1 = threading.Thread(target=earlier, daemon=True)
-        t1.start()
-        started.wait(10)
-        out = {}
+def cross_thread_case(ctx, v1, v2, params, kind, delivery):
+    import threading
 
-        def later():
-            try:
-                out["tokens"] = tok.spans(tok.deliver(tk, tok.CountingSource(frames2), ("list", "generator", "callback")[i % 3]))
-            except Exception as exc:
-                out["exc"] = repr(exc)[:200]
+    frames1, validator = tok.FRAME_KINDS[kind](v1)
+    frames2, _ = tok.FRAME_KINDS[kind](v2)
+    fresh = tok.spans(tok.deliver(tok.make_tokenizer(validator, params), tok.CountingSource(frames2), "list"))
+    tk = tok.make_tokenizer(validator, params)
+    started, release = threading.Event(), threading.Event()
 
-        t2 = threading.Thread(target=later, daemon=True)
-        t2.start()
-        t2.join(10)
-        hung = t2.is_alive()
-        release.set()
-        t1.join(10)
-        case = {"v1": "".join("A" if x else "a" for x in v1), "v2": "".join("A" if x else "a" for x in v2), "params": list(params), "kind": kind,
-                "use": "partial-suspended-in-another-live-thread"}
-        ctx.case(repr(case), bool(fresh))
-        ctx.count("cross_thread_reuses")
-        if hung:
-            ctx.violation("reused-tokenizer-blocks-when-earlier-generator-lives-in-another-thread", {"case": case})
-        elif "exc" in out:
-            ctx.violation("exception:" + out["exc"].split("(")[0], {"case": case, "exception": out["exc"]})
-        elif out.get("tokens") != fresh:
-            ctx.violation("reused-tokenizer-shifts-token-after-partial-use", {"case": case, "second_use": out.get("tokens"), "fresh": fresh})
+    def earlier():
+        g = tk.tokenize(tok.CountingSource(frames1), generator=True)
+        try:
+            next(g)
+        except StopIteration:
+            pass
+        started.set()
+        release.wait(20)  # stays alive, generator suspended
+
+    t1 = threading.Thread(target=earlier, daemon=True)
+    t1.start()
+    started.wait(10)
+    out = {}
+
+    def later():
+        try:
+            out["tokens"] = tok.spans(tok.deliver(tk, tok.CountingSource(frames2), delivery))
+        except Exception as exc:
+            out["exc"] = repr(exc)[:200]
+
+    t2 = threading.Thread(target=later, daemon=True)
+    t2.start()
+    t2.join(10)
+    hung = t2.is_alive()
+    release.set()
+    t1.join(10)
+    case = {"v1": "".join("A" if x else "a" for x in v1), "v2": "".join("A" if x else "a" for x in v2), "params": list(params), "kind": kind,
+            "use": "partial-suspended-in-another-live-thread", "delivery": delivery}
+    ctx.case(repr(case), bool(fresh))
+    ctx.count("cross_thread_reuses")
+    if hung:
+        ctx.violation("reused-tokenizer-blocks-when-earlier-generator-lives-in-another-thread", {"case": case})
+    elif "exc" in out:
+        ctx.violation("exception:" + out["exc"].split("(")[0], {"case": case, "exception": out["exc"]})
+    elif out.get("tokens") != fresh:
+        ctx.violation("reused-tokenizer-shifts-token-after-partial-use", {"case": case, "second_use": out.get("tokens"), "fresh": fresh})
 
 
 def checksum_colliding_windows(ctx):
@@ -370,7 +374,10 @@ def checksum_colliding_windows(ctx):
     if pair is None:
         ctx.note("no CRC-32 colliding loud/quiet pair found within the search budget")
         return
-    lw, qw = pair
+    judge_colliding_windows(ctx, pair[0], pair[1], width, channels, thr)
+
+
+def judge_colliding_windows(ctx, lw, qw, width, channels, thr):
     for order in ((lw, qw), (qw, lw)):
         v = AudioEnergyValidator(thr, width, channels)
         got = [bool(v.is_valid(w)) for w in order] + [bool(v.is_valid(w)) for w in order]
@@ -433,7 +440,13 @@ def run_shard(ctx):
 
 
 def replay(ctx, case):
-    if "v1" in case:
+    if case.get("use") == "partial-suspended-in-another-live-thread":
+        v1 = tuple(1 if ch == "A" else 0 for ch in case["v1"])
+        v2 = tuple(1 if ch == "A" else 0 for ch in case["v2"])
+        cross_thread_case(ctx, v1, v2, tuple(case["params"]), case["kind"], case.get("delivery", "list"))
+    elif "loud" in case and "quiet" in case:
+        judge_colliding_windows(ctx, bytes.fromhex(case["loud"]), bytes.fromhex(case["quiet"]), case["width"], case["channels"], case["thr"])
+    elif "v1" in case and "j" in case:
         v1 = tuple(1 if ch == "A" else 0 for ch in case["v1"])
         v2 = tuple(1 if ch == "A" else 0 for ch in case["v2"])
         check_pair(ctx, v1, v2, tuple(case["params"]), case["kind"], case["use"], case["j"])
